@@ -198,9 +198,13 @@ std::string Desc::toYaml() const {
   y += "\ntargets:\n";
   for (auto& t : targets) y += "  " + yamlQuote(t.first) + ": " + yamlList(t.second) + "\n";
   if (targets.empty()) y += "  \"\": []\n";
-  if (!nodeAttrs.empty()) {
+  bool anyAttrs = false;
+  for (auto& n : nodeAttrs)
+    if (!n.second.empty()) anyAttrs = true;
+  if (anyAttrs) {
     y += "\nnodes:\n";
     for (auto& n : nodeAttrs) {
+      if (n.second.empty()) continue;
       y += "  " + yamlQuote(n.first) + ":\n";
       for (auto& kv : n.second) y += "    " + kv.first + ": " + kv.second + "\n";
     }
